@@ -282,9 +282,9 @@ pub fn gen_world(r: &mut Rng) -> Vec<Tree> {
     let stranger = SocketAddr::new(IpAddr::V4(Ipv4Addr::new(66, 6, 6, 6)), 666);
     // half of the histories are built around one adversarial scenario, played early (while the state is simple) and once
     // more later; the other half mixes everything
-    let focus: Option<usize> = if r.chance(1, 2) { Some(*r.pick(&[18usize, 19, 20, 21, 22, 23, 24, 25, 26, 27, 28, 29, 29, 30, 31, 31, 8, 12])) } else { None };
-    let nclients = if focus == Some(30) { 3 } else { *r.pick(&[1usize, 2, 2, 3, 3]) };
-    let ids = [1u64, if focus == Some(30) || r.chance(1, 3) { 1 } else { 2 }, 3];
+    let focus: Option<usize> = if r.chance(1, 2) { Some(*r.pick(&[18usize, 19, 20, 21, 22, 23, 24, 25, 26, 27, 28, 29, 29, 30, 31, 31, 33, 33, 8, 12])) } else { None };
+    let nclients = if focus == Some(30) || focus == Some(33) { 3 } else { *r.pick(&[1usize, 2, 2, 3, 3]) };
+    let ids = [1u64, if focus == Some(30) || (focus != Some(33) && r.chance(1, 3)) { 1 } else { 2 }, 3];
     let mut next_token = 0u64;
     let mut new_token = |r: &mut Rng, ops: &mut Vec<Tree>, k: usize, now: u64| -> u64 {
         let tk = next_token;
@@ -380,7 +380,7 @@ pub fn gen_world(r: &mut Rng) -> Vec<Tree> {
             }
         };
         // (the replay window edge, case 27, costs 260 sealed datagrams: it is played in focused histories only)
-        let w: [u32; 33] = [14, 16, 14, 3, 3, 6, 9, 9, 5, 2, 2, 2, 3, 3, 3, 2, 10, 2, 2, 3, 4, 3, 4, 3, 2, 3, 4, 0, 2, 3, 2, 2, 3];
+        let w: [u32; 34] = [14, 16, 14, 3, 3, 6, 9, 9, 5, 2, 2, 2, 3, 3, 3, 2, 10, 2, 2, 3, 4, 3, 4, 3, 2, 3, 4, 0, 2, 3, 2, 2, 3, 0];
         let case = match focus {
             Some(f) if step == 3 || step == 14 => f,
             _ => r.weighted(&w),
@@ -720,6 +720,26 @@ pub fn gen_world(r: &mut Rng) -> Vec<Tree> {
                 ops.push(l(vec![n(150u8), n(k2), n(0u8), n(0u8), n(0u8), n(0u8)]));
                 ops.push(l(vec![n(151u8), n(k), n(0u8), addr_tree(&stranger), n(0u8), n(0u8), n(0u8)]));
                 ops.push(l(vec![n(116u8)]));
+            }
+            33 => {
+                // a race for the last slots, mostly after the limit was raised by one at run time: every client asks before
+                // anybody answers (all are challenged), then all of them answer
+                if nclients == 3 {
+                    if max < 3 && r.chance(3, 4) {
+                        ops.push(l(vec![n(115u8), n(max + 1)]));
+                    }
+                    for j in 0..3u64 {
+                        ops.push(l(vec![n(103u8), n(j), n(250 * MS)]));
+                        ops.push(l(vec![n(150u8), n(j), n(0u8), n(0u8), n(0u8), n(0u8)]));
+                    }
+                    for j in 0..3u64 {
+                        ops.push(l(vec![n(152u8), n(j), n(0u8), n(0u8), n(0u8), n(0u8)]));
+                        ops.push(l(vec![n(103u8), n(j), n(250 * MS)]));
+                        ops.push(l(vec![n(150u8), n(j), n(0u8), n(0u8), n(0u8), n(0u8)]));
+                        ops.push(l(vec![n(152u8), n(j), n(0u8), n(0u8), n(0u8), n(0u8)]));
+                    }
+                    ops.push(l(vec![n(116u8)]));
+                }
             }
             18 => {
                 // the attacker presents client k's request from its own address first
